@@ -249,63 +249,71 @@ Inductive wphase := W_IDLE | W_RX (l : list N) | W_TX (l : list N) (src : N).
 Record wstate := {
   w_ph : wphase;
   w_credit : bool;     (* a response has been solicited and has not started yet *)
-  w_expect : bool;     (* the last host packet was an OUT / SETUP token for this device: a data packet may follow *)
+  w_expect : bool;     (* the last host packet was an OUT / SETUP token for this device: its data packet may follow *)
+  w_dataok : bool;     (* the last host packet was a well-formed token after which a data packet may legally appear on the
+                          bus (own OUT/SETUP, or any token for another device) *)
   w_wait : N           (* cycles since the last packet ended (saturates at the patience bound) *)
 }.
-Definition w_init : wstate := {| w_ph := W_IDLE; w_credit := false; w_expect := false; w_wait := 0 |}.
+Definition w_init : wstate := {| w_ph := W_IDLE; w_credit := false; w_expect := false; w_dataok := false; w_wait := 0 |}.
 
-(* what a completed host packet solicits: (credit, expect) *)
-Definition solicits (addr : N) (expect : bool) (pkt : list N) : bool * bool :=
+(* what a completed host packet means: Some (credit, expect, dataok), or None if a legal host cannot have sent it
+   (a data packet that does not follow a token) *)
+Definition solicits (addr : N) (expect dataok : bool) (pkt : list N) : option (bool * bool * bool) :=
   match classify true addr pkt with
-  | EvToken p _ _ => if (p =? PID_IN) || (p =? PID_PING) then (true, false) else (false, true)
-  | _ => (expect && is_data_packetb pkt, false)
+  | EvToken p _ _ => Some (if (p =? PID_IN) || (p =? PID_PING) then (true, false, false) else (false, true, true))
+  | EvForeign => Some (false, false, true)
+  | _ => if mem_N (hd 0 pkt) data_pid_bytes
+         then (if dataok then Some (expect && is_data_packetb pkt, false, false) else None)
+         else Some (false, false, false)
   end.
 
 Definition onehot3 (s : N) : bool := (s =? 1) || (s =? 2) || (s =? 4).
 
 (* T = the host's patience (cycles it waits for a response to start before it may send the next packet).
    Result None = the HOST broke its obligations (rx_valid without rx_active; a packet started while the device is
-   transmitting, or before the response it solicited had T cycles to start); ok = false = the DEVICE broke the property. *)
+   transmitting, or before the response it solicited had T cycles to start; a data packet without a token);
+   ok = false = the DEVICE broke the property. *)
 Definition c20_wire_step (T : N) (s : wstate) (i o : N) : option (wstate * bool) :=
   let rxa := di_rxa i in let txv := do_txv o in
-  let mk ph c e w := {| w_ph := ph; w_credit := c; w_expect := e; w_wait := w |} in
+  let mk ph c e k w := {| w_ph := ph; w_credit := c; w_expect := e; w_dataok := k; w_wait := w |} in
   let tick w := if w <? T then w + 1 else w in
-  (* start of a device transmission from the idle phase, with credit c / expect e *)
-  let tx_start c e w :=
-    if txv then
-      Some (mk (W_TX (if di_ready i then [do_txd o] else []) (do_srcs o)) false false 0,
-            c && onehot3 (do_srcs o) && negb (N.testbit (do_srcs o) 0))
-    else Some (mk W_IDLE c e (tick w), do_srcs o =? 0) in
   if di_rxv i && negb rxa then None else
   match w_ph s with
   | W_IDLE =>
       if rxa then
         if w_credit s && (w_wait s <? T) then None                (* host did not wait for the solicited response *)
-        else Some (mk (W_RX []) false (w_expect s) 0, negb txv)   (* device starting in the very same cycle: unsolicited *)
-      else tx_start (w_credit s) (w_expect s) (w_wait s)
+        else Some (mk (W_RX []) false (w_expect s) (w_dataok s) 0, negb txv)   (* device starting in the very same cycle: unsolicited *)
+      else if txv then
+        (* a transmission starts: it needs a pending solicitation, exactly one source, and not the reset sequencer *)
+        Some (mk (W_TX (if di_ready i then [do_txd o] else []) (do_srcs o)) false false false 0,
+              w_credit s && onehot3 (do_srcs o) && negb (N.testbit (do_srcs o) 0))
+      else Some (mk W_IDLE (w_credit s) (w_expect s) (w_dataok s) (tick (w_wait s)), do_srcs o =? 0)
   | W_RX l =>
-      if rxa then Some (mk (W_RX (if di_rxv i then l ++ [di_rxd i] else l)) false (w_expect s) 0, negb txv)
-      else let (c, e) := solicits (do_addr o) (w_expect s) l in
-           if txv then Some (mk W_IDLE false false 0, false)      (* transmitting in the cycle the host packet ends *)
-           else Some (mk W_IDLE c e 0, do_srcs o =? 0)
+      if rxa then Some (mk (W_RX (if di_rxv i then l ++ [di_rxd i] else l)) false (w_expect s) (w_dataok s) 0, negb txv)
+      else match solicits (do_addr o) (w_expect s) (w_dataok s) l with
+           | None => None
+           | Some (c, e, k) =>
+               if txv then Some (mk W_IDLE false false false 0, false)   (* transmitting in the cycle the host packet ends *)
+               else Some (mk W_IDLE c e k 0, do_srcs o =? 0)
+           end
   | W_TX l src =>
       if rxa then None                                            (* host talks over the device *)
-      else if txv then Some (mk (W_TX (if di_ready i then l ++ [do_txd o] else l) src) false false 0, do_srcs o =? src)
-      else Some (mk W_IDLE false false 0,
+      else if txv then Some (mk (W_TX (if di_ready i then l ++ [do_txd o] else l) src) false false false 0, do_srcs o =? src)
+      else Some (mk W_IDLE false false false 0,
                  wf_tx_packetb l && (do_srcs o =? 0) && Bool.eqb (N.testbit src 2) (Nat.eqb (length l) 1))
   end.
 
 (* ---- N packing of the observer state (for the runtime oracle; at most one byte list is live at a time) ---- *)
 Definition w_enc (s : wstate) : N :=
-  b2n (w_credit s) + 2 * b2n (w_expect s) + 4 * (w_wait s mod 65536) +
-  262144 * match w_ph s with
+  b2n (w_credit s) + 2 * b2n (w_expect s) + 4 * b2n (w_dataok s) + 8 * (w_wait s mod 65536) +
+  524288 * match w_ph s with
            | W_IDLE => 0
            | W_RX l => 1 + 4 * bytes_enc l
            | W_TX l src => 2 + 4 * (src mod 8 + 8 * bytes_enc l)
            end.
 Definition w_dec (m : N) : wstate :=
-  let r := m / 262144 in
-  {| w_credit := N.odd m; w_expect := N.odd (m / 2); w_wait := (m / 4) mod 65536;
+  let r := m / 524288 in
+  {| w_credit := N.odd m; w_expect := N.odd (m / 2); w_dataok := N.odd (m / 4); w_wait := (m / 8) mod 65536;
      w_ph := match r mod 4 with
              | 0 => W_IDLE
              | 1 => W_RX (bytes_dec (r / 4))
@@ -334,9 +342,12 @@ Definition txq_dec (m : N) : txq_state := (hs_of_code (m mod 8), txs_dec (m / 8)
 Definition txp_out_eqb (a b : txp_out) : bool :=
   Bool.eqb (po_valid a) (po_valid b) && (po_data a =? po_data b) && Bool.eqb (po_sready a) (po_sready b)
   && Bool.eqb (po_vrst a) (po_vrst b) && Bool.eqb (po_vdata a) (po_vdata b) && Bool.eqb (po_vhs a) (po_vhs b).
+(* None = the HOST broke its part of the discipline (receive bytes while the device sends a data packet);
+   ok = false = the device's endpoints broke theirs, or the transmit path does not follow its specification *)
 Definition c20_disc_mon (m i o : N) : option (N * bool) :=
   let q := txq_dec m in
   let w := disc_word i o in
   if txq_env q w then
     let (q', so) := txq_tstep q w in Some (txq_enc q', txp_out_eqb (txp_norm (disc_obs o)) so)
+  else if pi_rxvalid w && negb (txq_idle q) then None
   else Some (m, false).
